@@ -19,17 +19,18 @@ CONSTANTS Names,      \* names that may occur in the index column
           Absent,     \* a name that never occurs
           MaxLen,     \* rows 0..MaxLen
           MaxDepth,
+          QSel,       \* "all" | "few": how many row designations the by-name cell assignments range over
           Inval       \* cache invalidation rule: "ref" = on every write into the index column (reference),
                       \* "pinned" = only on whole-column assignment (the pinned code, transcribed: fidelity witness),
                       \* "never" = keep the last probed snapshot for ever (used when emitting behaviours, so that
                       \* two paths that differ in what was looked up before an update stay different paths)
 
-VARIABLES idx, val, extra, cache, last, depth
-vars  == <<idx, val, extra, cache, last, depth>>
-State == <<idx, val, extra>>
-Node  == <<idx, val, extra, cache, last.a>>              \* identity of a node of the emitted graph: how a state was
+VARIABLES idx, val, extra, hasidx, cache, last, depth
+vars  == <<idx, val, extra, hasidx, cache, last, depth>>
+State == <<idx, val, extra, hasidx>>
+Node  == <<idx, val, extra, hasidx, cache, last.a>>              \* identity of a node of the emitted graph: how a state was
                                                         \* reached matters to a history-dependent implementation
-View  == <<idx, val, extra, cache, last.a, depth>>
+View  == <<idx, val, extra, hasidx, cache, last.a, depth>>
 
 NoCount == 99                     \* "no ::count given"
 KeyError == -100
@@ -64,6 +65,7 @@ Cols(n) == IF n = 0 THEN {<<>>} ELSE [1..n -> Names]
 Init == /\ \E n \in 0..MaxLen : idx \in Cols(n)
         /\ val = [i \in 1..Len(idx) |-> 10 * i]
         /\ extra = FALSE
+        /\ hasidx = TRUE
         /\ cache = None
         /\ last = [a |-> "Init"]
         /\ depth = 0
@@ -76,13 +78,13 @@ Touch(whole) == CASE Inval = "ref" -> None                 \* cache after a writ
 (* t['name'] = column   /   t.name = column *)
 SetCol(form, s) == /\ Len(idx) > 0 /\ s \in Cols(Len(idx)) /\ s # idx
                    /\ idx' = s /\ cache' = Touch(TRUE)
-                   /\ UNCHANGED <<val, extra>>
+                   /\ UNCHANGED <<val, extra, hasidx>>
                    /\ last' = [a |-> "SetCol", form |-> form, s |-> s]
 
 (* t['name', i] = n *)
 SetCell(i, n) == /\ i \in 1..Len(idx) /\ n # idx[i]
                  /\ idx' = [idx EXCEPT ![i] = n] /\ cache' = Touch(FALSE)
-                 /\ UNCHANGED <<val, extra>>
+                 /\ UNCHANGED <<val, extra, hasidx>>
                  /\ last' = [a |-> "SetCell", i |-> i - 1, n |-> n]
 
 (* t['name', 'a::1'] = n  or  t['name', ('a', 1)] = n : the row is resolved first *)
@@ -90,10 +92,10 @@ SetCellByRow(form, q, n) ==
   LET r == Answer(idx, q) IN
   /\ r # Skip
   /\ IF r = KeyError
-     THEN /\ UNCHANGED <<idx, val, extra>> /\ cache' = cache
+     THEN /\ UNCHANGED <<idx, val, extra, hasidx>> /\ cache' = cache
           /\ last' = [a |-> "SetCellByRow", form |-> form, q |-> q, n |-> n, exc |-> "KeyError"]
      ELSE /\ idx' = [idx EXCEPT ![r + 1] = n] /\ cache' = (IF idx' = idx THEN cache ELSE Touch(FALSE))
-          /\ UNCHANGED <<val, extra>>
+          /\ UNCHANGED <<val, extra, hasidx>>
           /\ last' = [a |-> "SetCellByRow", form |-> form, q |-> q, n |-> n, exc |-> "none"]
 
 (* t['v', row] = x *)
@@ -101,33 +103,51 @@ SetVal(form, q, x) ==
   LET r == Answer(idx, q) IN
   /\ r \notin {Skip, KeyError}
   /\ val' = [val EXCEPT ![r + 1] = x]
-  /\ UNCHANGED <<idx, extra, cache>>
+  /\ UNCHANGED <<idx, extra, hasidx, cache>>
   /\ last' = [a |-> "SetVal", form |-> form, q |-> q, x |-> x, exc |-> "none"]
 
-AddCol == /\ ~extra /\ extra' = TRUE /\ UNCHANGED <<idx, val, cache>> /\ last' = [a |-> "AddCol"]
-DelCol(form) == /\ extra /\ extra' = FALSE /\ UNCHANGED <<idx, val, cache>> /\ last' = [a |-> "DelCol", form |-> form]
+AddCol == /\ ~extra /\ extra' = TRUE /\ UNCHANGED <<idx, val, hasidx, cache>> /\ last' = [a |-> "AddCol"]
+DelCol(form) == /\ extra /\ extra' = FALSE /\ UNCHANGED <<idx, val, hasidx, cache>> /\ last' = [a |-> "DelCol", form |-> form]
+
+(* del t['name'] / t.pop('name'): the index column itself is removed; nothing is demanded of name lookups until  *)
+(* an index column exists again.  t['name'] = column / t.name = column then creates it as a NEW column, and the  *)
+(* lookups must resolve against it (a cache kept from the old column is stale: Touch).                          *)
+DelIndex(form) == /\ hasidx /\ Len(idx) > 0
+                  /\ hasidx' = FALSE /\ idx' = <<>> /\ cache' = cache
+                  /\ UNCHANGED <<val, extra>>
+                  /\ last' = [a |-> "DelIndex", form |-> form]
+AddIndex(form, s) == /\ ~hasidx /\ s \in Cols(Len(val))
+                     /\ hasidx' = TRUE /\ idx' = s /\ cache' = Touch(TRUE)
+                     /\ UNCHANGED <<val, extra>>
+                     /\ last' = [a |-> "AddIndex", form |-> form, s |-> s]
 
 (* perform every lookup form now (this is what builds the implementation's cache) *)
-Probe == /\ cache' = idx /\ UNCHANGED <<idx, val, extra>> /\ last' = [a |-> "Probe"]
+Probe == /\ cache' = idx /\ UNCHANGED <<idx, val, extra, hasidx>> /\ last' = [a |-> "Probe"]
 
-SmallQ == {q \in Queries : q[2] \in {NoCount, 1, -1} /\ q[3] \in {0, 1}}
+SmallQ == IF QSel = "few" THEN {<<"a", NoCount, 0>>, <<"b", 0 - 1, 0>>, <<"a", 1, 1>>}
+          ELSE {q \in Queries : q[2] \in {NoCount, 1, -1} /\ q[3] \in {0, 1}}
+
+Live == \/ \E f \in {"item", "attr"} : \E s \in Cols(Len(idx)) : SetCol(f, s)
+        \/ \E i \in 1..Len(idx) : \E n \in Names : SetCell(i, n)
+        \/ \E f \in {"str", "tuple"} : \E q \in SmallQ : \E n \in Names : SetCellByRow(f, q, n)
+        \/ \E f \in {"str", "tuple"} : \E q \in {qq \in SmallQ : qq[2] # 1} : SetVal(f, q, 7)
+        \/ AddCol \/ \E f \in {"del", "pop"} : DelCol(f)
+        \/ \E f \in {"del", "pop"} : DelIndex(f)
+        \/ Probe
 
 Next == /\ depth < MaxDepth
         /\ depth' = depth + 1
-        /\ \/ \E f \in {"item", "attr"} : \E s \in Cols(Len(idx)) : SetCol(f, s)
-           \/ \E i \in 1..Len(idx) : \E n \in Names : SetCell(i, n)
-           \/ \E f \in {"str", "tuple"} : \E q \in SmallQ : \E n \in Names : SetCellByRow(f, q, n)
-           \/ \E f \in {"str", "tuple"} : \E q \in {qq \in SmallQ : qq[2] # 1} : SetVal(f, q, 7)
-           \/ AddCol \/ \E f \in {"del", "pop"} : DelCol(f)
-           \/ Probe
+        /\ \/ (~hasidx /\ \E f \in {"item", "attr"} : \E s \in Cols(Len(val)) : AddIndex(f, s))
+           \/ (~hasidx /\ (AddCol \/ \E f \in {"del", "pop"} : DelCol(f)))
+           \/ (hasidx /\ Live)
 
 Spec == Init /\ [][Next]_vars
 
 (* C07 at design level: a kept cache always describes the current index column *)
-CacheCoherent == cache = None \/ cache = idx
+CacheCoherent == cache = None \/ ~hasidx \/ cache = idx
 (* labels resolve back to their own row *)
 LabelsResolve == \A i \in 1..Len(idx) : Resolve(idx, Label(idx, i)[1], Label(idx, i)[2], 0) = i - 1
-TypeOK == /\ Len(idx) = Len(val) /\ Len(idx) <= MaxLen /\ extra \in BOOLEAN
+TypeOK == /\ (hasidx => Len(idx) = Len(val)) /\ Len(val) <= MaxLen /\ extra \in BOOLEAN
 
 Emit == PrintT(ToJson(<<"TR", Node, last', Node',
                         IF last'.a = "Probe" THEN {<<q, Answer(idx', q)>> : q \in Queries} ELSE {},
